@@ -133,6 +133,10 @@ func extractC07Round3(f *ast.File, g *gen) {
 	// tied to a function, so an extracted helper changes nothing). The model has no step by which the PROXY
 	// abandons a response write: the only deadline is the idle one (read+write, `SetDeadline`).
 	dl := map[string]bool{}
+	// (1b) the socket options the proxy sets on connections anywhere in proxy.go (set of method names): keep-alive
+	// on accepted connections and nothing else — in particular nothing that changes what Close() of a
+	// connection does to data still in flight (SetLinger)
+	so := map[string]bool{}
 	// (2) how often the shutdown signal is consulted or handed on, by kind (sorted multiset; not tied to a
 	// function): close (close(x.closing)), recv (<-x.closing), arg:<callee> (x.closing passed to a call),
 	// Closing (x.Closing()). A new consultation anywhere (or a dropped one) changes it.
@@ -149,6 +153,8 @@ func extractC07Round3(f *ast.File, g *gen) {
 				switch m {
 				case "SetDeadline", "SetReadDeadline", "SetWriteDeadline":
 					dl[m] = true
+				case "SetLinger", "SetNoDelay", "SetKeepAlive", "SetKeepAlivePeriod", "SetKeepAliveConfig", "SetReadBuffer", "SetWriteBuffer":
+					so[m] = true
 				case "Closing":
 					uses = append(uses, "Closing")
 				case "close":
@@ -176,7 +182,13 @@ func extractC07Round3(f *ast.File, g *gen) {
 	}
 	sort.Strings(deadlines)
 	sort.Strings(uses)
+	var sockopts []string
+	for m := range so {
+		sockopts = append(sockopts, m)
+	}
+	sort.Strings(sockopts)
 	g.def("deadlineKinds", "List String", leanList(deadlines))
+	g.def("sockoptKinds", "List String", leanList(sockopts))
 	g.def("closingUses", "List String", leanList(uses))
 
 	// (3) the order of the shutdown-relevant calls of `handle` (method names, source order): the request
